@@ -283,6 +283,45 @@ func ruleDataMatrixEncoder(c *Ctx) {
 			for _, s := range appendSites(fn) {
 				if hdr.Dominates(s.call.Block()) {
 					n.Bind[dphi] = "cur"
+					// a position counter that runs beside the growing slice (one append per iteration):
+					// pos = len(cur) + k with k fixed where the loop is entered
+					posEnv := map[ssa.Value]Poly{}
+					for _, ins := range hdr.Instrs {
+						pp, isPhi := ins.(*ssa.Phi)
+						if !isPhi {
+							break
+						}
+						if pp == dphi || !isIntType(pp.Type()) {
+							continue
+						}
+						var entry ssa.Value
+						stepOne := true
+						var curEntry ssa.Value
+						for ei, e := range pp.Edges {
+							if hdr.Dominates(hdr.Preds[ei]) {
+								bo, isBo := e.(*ssa.BinOp)
+								if !isBo || bo.Op != token.ADD || bo.X != ssa.Value(pp) {
+									stepOne = false
+								} else if k, isK := constInt(bo.Y); !isK || k != 1 {
+									stepOne = false
+								}
+							} else {
+								entry = e
+								curEntry = dphi.Edges[ei]
+							}
+						}
+						if entry == nil || curEntry == nil || !stepOne {
+							continue
+						}
+						delete(n.Bind, dphi)
+						kPoly := pAdd(lenAwareNorm(n, entry, 0), lenOfAppended(n, curEntry), -1)
+						n.Bind[dphi] = "cur"
+						if k, isK := kPoly.IsConst(); isK {
+							posEnv[pp] = pAdd(pAtom("len(cur)"), pConst(k), 1)
+						}
+					}
+					n.env = append(n.env, posEnv)
+					defer func() { n.env = n.env[:len(n.env)-1] }()
 					c.expectCond(R5, "datamatrix.addPadding/while", s.call.Pos(), n.LoopCond(hdr), "len(cur) < cap")
 					v := s.elems[0]
 					if cv, ok := v.(*ssa.Convert); ok {
@@ -374,17 +413,22 @@ func ruleDataMatrixEncoder(c *Ctx) {
 				}
 				leaves := hdr != nil && !reachableWithin(hdr, exit, body)
 				selected := false
+				// (the row may be read a second time: the same table entry at the same loop position)
+				rowForm := NewNormer(c.P).Norm(row).String()
+				sameRow := func(v ssa.Value) bool {
+					return v == row || (strings.HasPrefix(rowForm, "global:datamatrix.codeSizes[") && NewNormer(c.P).Norm(v).String() == rowForm)
+				}
 				for cur, steps := exit, 0; cur != nil && steps < 3; steps++ {
 					for _, ins := range cur.Instrs {
 						switch x := ins.(type) {
 						case *ssa.Phi:
 							for ei, e := range x.Edges {
-								if e == row && (cur.Preds[ei] == body || cur.Preds[ei] == exit) {
+								if sameRow(e) && (cur.Preds[ei] == body || cur.Preds[ei] == exit) {
 									selected = true
 								}
 							}
 						case *ssa.Return:
-							if len(x.Results) > 0 && x.Results[0] == row {
+							if len(x.Results) > 0 && sameRow(x.Results[0]) {
 								selected = true
 							}
 						}
@@ -797,10 +841,34 @@ func ruleDataMatrixEncoder(c *Ctx) {
 		aliasDims(n)
 		// final (row, col) are the arguments of the Occupied call
 		occ := callsTo(fn, c.P.Func("datamatrix.(*codeLayout).Occupied"))
-		if len(occ) != 1 {
+		var a []ssa.Value
+		if len(occ) == 1 {
+			a = occ[0].Common().Args
+		} else if len(occ) == 0 {
+			// the occupancy test written out: occupy.GetBit(col + row*ncol) - row and column are the
+			// two parts of that position
+			for _, gb := range callsTo(fn, c.P.Func("utils.(*BitList).GetBit")) {
+				add, ok := gb.Common().Args[1].(*ssa.BinOp)
+				if !ok || add.Op != token.ADD {
+					continue
+				}
+				for _, pair := range [][2]ssa.Value{{add.X, add.Y}, {add.Y, add.X}} {
+					mul, isMul := pair[1].(*ssa.BinOp)
+					if !isMul || mul.Op != token.MUL {
+						continue
+					}
+					for _, mp := range [][2]ssa.Value{{mul.X, mul.Y}, {mul.Y, mul.X}} {
+						if n.Norm(mp[1]).String() == "ncol" {
+							a = []ssa.Value{gb.Common().Args[0], mp[0], pair[0]}
+							occ = []*ssa.Call{gb}
+						}
+					}
+				}
+			}
+		}
+		if len(occ) != 1 || a == nil {
 			c.Undecided(R3, "datamatrix.Set/occupied", fn.Pos(), "expected one Occupied(row, col) call")
 		} else {
-			a := occ[0].Common().Args
 			F, ra, ca := fn, a[1], a[2]
 			// the wrap may be computed by a loop-free helper returning (row, col): analyse it in the
 			// context of this call
@@ -1136,4 +1204,48 @@ func isCursorClosure(mc *ssa.MakeClosure, parent *ssa.Function) bool {
 		return true
 	}
 	return b == ssa.Value(parent.Params[1])
+}
+
+// lenOfAppended: the length of v as a formula - len(x) + number of listed elements for append(x, e...),
+// len(v) otherwise.
+func lenOfAppended(n *Normer, v ssa.Value) Poly {
+	if call, ok := v.(*ssa.Call); ok {
+		if bi, isB := call.Common().Value.(*ssa.Builtin); isB && bi.Name() == "append" && len(call.Common().Args) == 2 {
+			if el := variadicElems(call.Common().Args[1]); el != nil {
+				return pAdd(lenOfAppended(n, call.Common().Args[0]), pConst(int64(len(el))), 1)
+			}
+		}
+	}
+	if phi, ok := v.(*ssa.Phi); ok && len(phi.Edges) > 0 {
+		// the same length on every way in, or nothing known
+		first := lenOfAppended(n, phi.Edges[0])
+		for _, e := range phi.Edges[1:] {
+			if !pEqual(first, lenOfAppended(n, e)) {
+				return pAtom("len(" + n.Norm(v).asAtom() + ")")
+			}
+		}
+		return first
+	}
+	return pAtom("len(" + n.Norm(v).asAtom() + ")")
+}
+
+// lenAwareNorm: the normal form of a small expression over slice lengths, with len(append(x, e...))
+// read as len(x) + number of listed elements.
+func lenAwareNorm(n *Normer, v ssa.Value, depth int) Poly {
+	if depth < 4 {
+		switch x := v.(type) {
+		case *ssa.BinOp:
+			switch x.Op {
+			case token.ADD:
+				return pAdd(lenAwareNorm(n, x.X, depth+1), lenAwareNorm(n, x.Y, depth+1), 1)
+			case token.SUB:
+				return pAdd(lenAwareNorm(n, x.X, depth+1), lenAwareNorm(n, x.Y, depth+1), -1)
+			}
+		case *ssa.Call:
+			if bi, ok := x.Common().Value.(*ssa.Builtin); ok && bi.Name() == "len" && len(x.Common().Args) == 1 {
+				return lenOfAppended(n, x.Common().Args[0])
+			}
+		}
+	}
+	return n.Norm(v)
 }
